@@ -268,6 +268,34 @@ def sql_expression(K):
                    describe=lambda a: {'expr': ''.join(chr(a[f'c{i}']) for i in range(K))}, bounds={'K': K})
 
 
+def sql_expr_fixed():
+    """expression texts with parentheses at both ends, nested parentheses, quotes: verbatim inside one more pair of parentheses"""
+    from harness.c03 import EXPRS
+    from harness.common import IntRange
+
+    def body(a):
+        text = EXPRS[a['ex']]
+        doc = "Table t {\n  c int [default: `" + text + "`]\n  indexes {\n    `" + text + "` [name: 'i']\n  }\n}\n"
+        try:
+            db = docs.parse(doc)
+            sql = db.sql
+        except Exception:
+            return 'expression broke parsing or rendering'
+        reached()
+        r = ddl.read_or_none(sql)
+        if r is None:
+            return 'expression text broke the SQL structure'
+        tab = [s_ for s_ in r[0] if s_[0] == 'table'][0]
+        idx = [s_ for s_ in r[0] if s_[0] == 'index'][0]
+        if tab[2][0][6] != '(' + text + ')':
+            return 'expression default not emitted verbatim inside parentheses'
+        if idx[5] != (('expr', '(' + text + ')'),):
+            return 'expression index subject not emitted verbatim inside parentheses'
+        return ''
+
+    return Harness(body, [('ex', IntRange(0, len(EXPRS) - 1))], describe=lambda a: {'expr': EXPRS[a['ex']]}, bounds={'exprs': EXPRS})
+
+
 # ---- instance tables ----------------------------------------------------------------------------
 def instances(tier):
     out = []
@@ -293,6 +321,7 @@ def instances(tier):
     add('sql_note/table/K2', 'sql_note', {'site': 'table_note_inline', 'K': 2}, 240)
     add('sql_note/column/K2', 'sql_note', {'site': 'column_note', 'K': 2}, 240)
     add('sql_expr/K2', 'sql_expression', {'K': 2}, 240)
+    add('sql_expr_fixed', 'sql_expr_fixed', {}, 240)
     if not quick:
         for site in SITES:
             add(f'rt/{site}/triple/wide/K3', 'site_roundtrip', {'site': site, 'K': 3, 'style': 'triple', 'cls': 'wide'}, 1200)
